@@ -2010,7 +2010,15 @@ class C17(Property):
                 continue
             cases.append(c)
         grid = [c for c in g.option_grid() if not detect_shapes(c)]
-        cases += grid if tier != "quick" else rng.sample(grid, min(len(grid), 48))
+        if tier != "quick":
+            cases += grid
+        else:
+            # the OPTIONAL embedded struct x member {plain, optional, default} x {absent, present} x {other member absent,
+            # present} x {value, pointer} part always (processAnonymousStructFieldOptional: mutation sweep survivors
+            # m028 / m029 / m051 were missed when the sample left these out), a sample of the rest
+            fixed = [c for c in grid if any(f.get("emb") and f.get("eopt") for f in c["type"])]
+            rest = [c for c in grid if not any(f.get("emb") and f.get("eopt") for f in c["type"])]
+            cases += fixed + rng.sample(rest, min(len(rest), max(0, 48 - len(fixed))))
         for _ in range(max(16, n // 40)):
             c = g.spelling_case()
             if c is not None and (landed or not nested_map_shape(c)):
